@@ -120,3 +120,51 @@ def monitor_traces(traces, scratch, shards=16, module="TraceMon.tla", cfg="Trace
         except OSError:
             pass
     return verdicts, {"states": states, "errors": errors, "wall": max(r["wall"] for r in outs)}
+
+
+# ---------------------------------------------------------------------------------------------
+# strict pass: conformance of recorded behaviours to Core (TraceCore.tla)
+# ---------------------------------------------------------------------------------------------
+def parse_conf(out):
+    res = {}
+    flat = out.replace("\n", " ")
+    for m in re.finditer(r'<<\s*"CONF",\s*(\d+),\s*(\d+),\s*(\d+)\s*>>', flat):
+        res[int(m.group(1))] = (int(m.group(2)), int(m.group(3)))
+    return res
+
+
+def conform_traces(traces, scratch, shards=16, module="TraceCore.tla", cfg="TraceCore.cfg", timeout=3600):
+    """Returns (list of (matched, length) aligned with traces (None = machinery failure), stats)."""
+    n = len(traces)
+    shards = max(1, min(shards, n))
+    idx = [list(range(i, n, shards)) for i in range(shards)]
+    files = []
+    for si, ids in enumerate(idx):
+        f = os.path.join(scratch, "ctraces-%d.json" % si)
+        with open(f, "w") as fh:
+            fh.write(json.dumps([traces[i] for i in ids], separators=(",", ":")))
+        files.append(f)
+
+    def one(si):
+        return run_tlc(module, cfg, scratch, workers=1, env={"TRACE_FILE": files[si]}, timeout=timeout,
+                       heap="3g", gc=SMALL_JVM,
+                       java_props=("-Dtlc2.tool.queue.IStateQueue=StateDeque",))
+    with ThreadPoolExecutor(max_workers=shards) as ex:
+        outs = list(ex.map(one, range(shards)))
+    res = [None] * n
+    errors = []
+    states = 0
+    for si, r in enumerate(outs):
+        v = parse_conf(r["out"])
+        states += parse_stats(r["out"])["distinct"]
+        if "Error:" in r["out"]:
+            errors.append(r["out"][-4000:])
+        for local, ids in enumerate(idx[si]):
+            if (local + 1) in v:
+                res[ids] = v[local + 1]
+    for f in files:
+        try:
+            os.unlink(f)
+        except OSError:
+            pass
+    return res, {"states": states, "errors": errors, "wall": max(r["wall"] for r in outs)}
